@@ -295,6 +295,7 @@ def _crash_enum(ctx):
 
 CHECKS["C03"] = Spec(
     prop_file="C03.v",
+    skeleton=["C03", "C13"],      # the order "header, then remove" (Retire.v) and the hand-over of the freelist file (HandOver.v)
     weights=dict(put=36, get=6, remove=14, flush=6, crash=12, pgc=6, igc=5, reopen=4),
     gen_kw=dict(imax_choices=(1, 40, 100, 300), pmax_choices=(1, 60, 100, 300), imm_p=0.15),
     keep=("res", "crash"),
@@ -1622,6 +1623,7 @@ SKEL_GOALS = {
     "C06": "wf_C06 skel_Store_Get skel_Store_Has skel_Store_GetSize skel_Store_Put skel_Store_Remove skel_primaryGC_reapRecords skel_primaryGC_gc",
     "C09": "wf_C09 skel_OpenStore skel_translateIndex skel_finishIndexTranslation",
     "C10": "wf_C10 skel_remapIndex",
+    "C03": "wf_C03 skel_Index_gc skel_Index_truncateFreeFiles skel_primaryGC_gc",
     "C13": "wf_C13 skel_FreeList_ToGC skel_processFreeList",
     "C14": "wf_C14 [skel_FileCache_Open; skel_FileCache_Close; skel_FileCache_Remove; skel_FileCache_Clear; skel_FileCache_SetCacheSize; skel_FileCache_Len; skel_FileCache_Cap]",
 }
